@@ -287,6 +287,25 @@ class World(object):
             return v
         raise PyRaise('NameError', ExcInst('NameError'), msg=name)
 
+    def registry_names(self):
+        """ names registered with @dispatcher.register_for(...) in hotxlfp/formulas/*.py (read from the decorators) """
+        if getattr(self, '_registry', None) is None:
+            names = {}
+            d = os.path.join(self.repo_root, 'hotxlfp', 'formulas')
+            for fn in sorted(os.listdir(d)):
+                if not fn.endswith('.py'):
+                    continue
+                tree = ast.parse(open(os.path.join(d, fn), encoding='utf-8').read())
+                for n in tree.body:
+                    if isinstance(n, ast.FunctionDef):
+                        for dec in n.decorator_list:
+                            if isinstance(dec, ast.Call) and isinstance(dec.func, ast.Attribute) and dec.func.attr == 'register_for':
+                                for arg in dec.args:
+                                    if isinstance(arg, ast.Constant) and isinstance(arg.value, str):
+                                        names[arg.value] = '%s:%s' % (fn[:-3], n.name)
+            self._registry = names
+        return self._registry
+
     # ------------------------------------------------------------------ element kinds of symbolic lists
     def elem_kinds(self, s):
         return getattr(s, '_elem', None) or self.elem.get(id(s), ALL_KINDS)
@@ -773,6 +792,13 @@ class Axioms(object):
         f = py_upper if which == 'upper' else py_lower
         # lengths are not preserved in general (sharp s), but empty text maps to empty text and only to it
         it.ctx.axiom((z3.Length(f(s)) == 0) == (z3.Length(s) == 0))
+        if which == 'upper':
+            # on ASCII cell labels ($, letters, digits) upper() keeps the shape, the length, and is idempotent
+            from . import lexre
+            lab = lexre.Parsed(r'^\$?[A-Za-z]+\$?[0-9]+\Z').fullmatch_language()
+            labu = lexre.Parsed(r'^\$?[A-Z]+\$?[0-9]+\Z').fullmatch_language()
+            it.ctx.axiom(z3.Implies(z3.InRe(s, lab), z3.And(z3.InRe(f(s), labu), z3.Length(f(s)) == z3.Length(s))))
+            it.ctx.axiom(z3.Implies(z3.InRe(s, labu), f(s) == s))
 
     def replace_all(self, it, s, old, new):
         f = z3.Function('py_replace', z3.StringSort(), z3.StringSort(), z3.StringSort(), z3.StringSort())
@@ -896,7 +922,7 @@ class SpecAPI(object):
             self.table[nm] = Err(i)
         from . import api as _api
         for nm in ('NONE_T', 'BOOL', 'INT', 'FLOAT', 'STR', 'ERR', 'DATE', 'NUMBER', 'NUMBERB', 'SCALAR', 'HOSTOBJ',
-                   'ANY', 'VALUE_T', 'HOSTFN'):
+                   'ANY', 'VALUE_T', 'HOSTFN', 'SYMMAP', 'SYMMAP_LISTS'):
             self.table[nm] = getattr(_api, nm)
         self.table['OMITTED'] = _api.OMITTED
         self.table['datetime'] = ExtRef('datetime')
@@ -1065,6 +1091,55 @@ class SpecAPI(object):
             return c.opaque_apply(it, args)
         return it.call(c.fns['spec'], args)
 
+    def s_host_calls(self, it, a, k):
+        """ the ghost log of call-outs to host code, in order: objects with .fn (the callee value), .args, .ret (None if raised) """
+        out = []
+        HC = NamedTupleClass('HostCall', ['fn', 'args', 'returned', 'ret'])
+        for e in it.ctx.log:
+            if isinstance(e, dict) and e['kind'] == 'host':
+                fn = e['fn']
+                r = e['result']
+                out.append(Obj(HC, {'fn': fn.sym if fn.sym is not None else fn, 'args': list(e['args']),
+                                    'returned': bool(r and r[0] == 'ret'), 'ret': r[1] if r and r[0] == 'ret' else None}))
+        return out
+
+    def s_setter_values(self, it, a, k):
+        """ values the host handed to an escaped setter closure during the call, in order """
+        return [e['args'][0] for e in it.ctx.log if isinstance(e, dict) and e['kind'] == 'closure_call' and e['args']]
+
+    def s_emits(self, it, a, k):
+        """ events emitted on an object during the call: list of [name, arg1, ...] """
+        out = []
+        for e in it.ctx.log:
+            if isinstance(e, tuple) and e[0] == 'call' and e[1].endswith('Emitter.emit') and e[2][0] is a[0]:
+                out.append([e[2][1]] + list(e[2][2]))
+        return out
+
+    def s_registry_has(self, it, a, k):
+        name = a[0]
+        if isinstance(name, str):
+            return name in self.world.registry_names()
+        s = as_sym(name)
+        if it.ctx.narrow(s) != STR:
+            return False
+        t = s.pay(STR)
+        names = self.world.registry_names()
+        return it.ctx.branch(z3.Or(*[t == z3.StringVal(n) for n in names]))
+
+    def s_registry_fn(self, it, a, k):
+        s = as_sym(a[0])
+        f = z3.Function('registry_fn', z3.StringSort(), Val)
+        t = s.pay(STR)
+        v = Sym(f(t), (OBJ,))
+        it.ctx.axiom(z3.And(REC[OBJ](f(t)), ACC[OBJ][0](f(t)) == CLS_OTHER))
+        return HostFn('registry', v)
+
+    def s_map_has(self, it, a, k):
+        return a[0].contains(it, a[1])
+
+    def s_map_get(self, it, a, k):
+        return a[0].getitem(it, a[1])
+
     def s_calls(self, it, a, k):
         fn = a[0]
         return [list(e['args']) for e in it.ctx.log if isinstance(e, dict) and e['kind'] == 'host' and e['fn'] is fn]
@@ -1123,6 +1198,32 @@ class SpecAPI(object):
             return False
         P = lexre.Parsed(r'^\$?[A-Za-z]+\$?[0-9]+\Z')
         return it.ctx.branch(z3.InRe(s.pay(STR), P.fullmatch_language()))
+
+    def s_label_parts(self, it, a, k):
+        """ decomposition of a cell label (is_cell_label holds): (column absolute?, column letters, row absolute?, row digits) """
+        from . import lexre
+        s = as_sym(a[0])
+        if it.ctx.narrow(s) != STR:
+            raise OutOfReach('label_parts of non-text')
+        t = s.pay(STR)
+        lc = z3.Function('label_col', z3.StringSort(), z3.StringSort())
+        lr = z3.Function('label_row', z3.StringSort(), z3.StringSort())
+        ca = z3.Function('label_col_abs', z3.StringSort(), z3.BoolSort())
+        ra = z3.Function('label_row_abs', z3.StringSort(), z3.BoolSort())
+        d = z3.StringVal('$')
+        e = z3.StringVal('')
+        letters = z3.Plus(z3.Union(z3.Range(z3.StringVal('a'), z3.StringVal('z')), z3.Range(z3.StringVal('A'), z3.StringVal('Z'))))
+        digits = z3.Plus(z3.Range(z3.StringVal('0'), z3.StringVal('9')))
+        P = lexre.Parsed(r'^\$?[A-Za-z]+\$?[0-9]+\Z')
+        it.ctx.axiom(z3.Implies(z3.InRe(t, P.fullmatch_language()), z3.And(
+            t == z3.Concat(z3.If(ca(t), d, e), lc(t), z3.If(ra(t), d, e), lr(t)),
+            z3.InRe(lc(t), letters), z3.InRe(lr(t), digits))))
+        return (mk_bool(ca(t)), mk_str(lc(t)), mk_bool(ra(t)), mk_str(lr(t)))
+
+    def s_parsed_label(self, it, a, k):
+        m = self.world.module('hotxlfp.helper.cell')
+        cls = self.world.module_attr(it, m, 'ParsedLabel')
+        return Obj(cls, {'index': a[0], 'label': a[1], 'is_absolute': a[2]})
 
     def s_col_label(self, it, a, k):
         """ bijective base-26 column label of a zero-based index (upper case); '' for negative indices.  Uninterpreted
